@@ -34,7 +34,7 @@ FLOATS = [0.0, -0.0, 1.5, -2.25, float('inf'), float('-inf'), float('nan'), 1e-4
 def cases(tier, seed):
     rnd = random.Random(seed * 48611 + 5)
     out = []
-    n = 120 if tier == 'quick' else 2500
+    n = 300 if tier == 'quick' else 2500
     for i in range(n):
         proto = rnd.choice((10, 10, 10, 7, 4, 3, 0))
         out.append({'seed': seed * 1000003 + i, 'proto': proto, 'nparam': rnd.randint(3, 14),
